@@ -151,6 +151,8 @@ def describe(v):
         return (t, repr(v), math.copysign(1.0, v))
     if isinstance(v, complex):
         return (t, describe(v.real), describe(v.imag))
+    if isinstance(v, int) and not isinstance(v, bool):
+        return (t, hex(v))      # repr() of a huge int hits the int->str digit limit
     if isinstance(v, tuple):
         return (t, tuple(describe(x) for x in v))
     return (t, repr(v))
@@ -184,9 +186,10 @@ def cmd_fold(path):
             continue
         a = value_repr(base[2:])
         b = value_repr(out[2:])
-        if a != b or a[0] == 'raises' or (len(a) > 1 and a[1] == 'nan'):
-            violations.append({'label': label, 'source': src, 'sig': 'value-changed' if a != b else 'folded-raising-or-nan',
-                               'detail': '%r -> %r: %r != %r' % (src, out, a, b)})
+        # the whole right-hand side is evaluated before and after: folding an inner, non-raising sub-expression of an expression that
+        # raises (or is NaN) as a whole is fine, the result just has to be the same exception type / value
+        if a != b:
+            violations.append({'label': label, 'source': src, 'sig': 'value-changed', 'detail': '%r -> %r: %r != %r' % (src, out, a, b)})
     return {'checked': checked, 'skipped': skipped, 'folded': folded, 'violations': violations[:200]}
 
 
